@@ -66,7 +66,7 @@ class Machine(object):
             raise AnalysisError('cannot fold ProtocolVersion.SUPPORTED_VERSIONS: %s' % e)
         self.pv_folder = Folder(self.init)
 
-    def pv_pred(self, name, version):
+    def pv_pred(self, name, version, _depth=0):
         """fold ProtocolVersion.<name>(version) from its source."""
         m = None
         for st in self.pv_cls.body:
@@ -86,8 +86,26 @@ class Machine(object):
                 except Unfoldable:
                     pass
         env = {params[0]: consts, 'ProtocolVersion': consts, params[1]: version}
+        # a predicate written in terms of a sibling predicate: cls.other(version) is folded first
+        expr = body[0].value
+        sib = [c for c in ast.walk(expr) if isinstance(c, ast.Call) and isinstance(c.func, ast.Attribute) and isinstance(c.func.value, ast.Name) and
+               c.func.value.id in (params[0], 'ProtocolVersion') and len(c.args) == 1 and isinstance(c.args[0], ast.Name) and c.args[0].id == params[1] and not c.keywords]
+        if sib:
+            if _depth > 4:
+                raise AnalysisError('ProtocolVersion.%s: predicates call each other too deeply' % name)
+            import copy as _copy
+            expr = _copy.deepcopy(expr)
+            vals = {}
+
+            class _R(ast.NodeTransformer):
+                def visit_Call(s_, n):
+                    if isinstance(n.func, ast.Attribute) and isinstance(n.func.value, ast.Name) and n.func.value.id in (params[0], 'ProtocolVersion') and len(n.args) == 1 \
+                            and isinstance(n.args[0], ast.Name) and n.args[0].id == params[1] and not n.keywords:
+                        return ast.copy_location(ast.Constant(value=self.pv_pred(n.func.attr, version, _depth + 1)), n)
+                    return s_.generic_visit(n)
+            expr = _R().visit(expr)
         try:
-            return self.pv_folder.eval(body[0].value, env=env)
+            return self.pv_folder.eval(expr, env=env)
         except Unfoldable as e:
             raise AnalysisError('cannot fold ProtocolVersion.%s: %s' % (name, e))
 
